@@ -37,7 +37,7 @@ def gen_hist_case(rng, max_n=6, max_ops=7):
             ops.append(dict(kind="call", args=args, run_debug=rng.random() < 0.3))
         elif r < 0.45:
             t = sorted(rng.sample(range(n), rng.randint(0, min(2, n)))) if rng.random() < 0.6 else None
-            ops.append(dict(kind="setup", target=t, exclude=None, root=None))
+            ops.append(dict(kind="setup", target=t, exclude=(sorted(rng.sample(range(n), 1)) if rng.random() < 0.2 else None), root=None))
         elif r < 0.8:
             sel = dict(target=None, exclude=None, root=None)
             mode = rng.random()
@@ -46,6 +46,14 @@ def gen_hist_case(rng, max_n=6, max_ops=7):
                 sel["target"] = sorted(rng.sample(range(n), rng.randint(1, min(2, n))))
             elif mode < 0.45 and roots:
                 sel["root"] = sorted(rng.sample(roots, 1))
+            xr = random.Random(rng.getrandbits(30))
+            if mode < 0.45 and xr.random() < 0.4:
+                # an exclusion next to the targets / roots (it may make the selection impossible: ValueError)
+                sel["exclude"] = sorted(xr.sample(range(n), 1))
+            elif mode >= 0.6 and xr.random() < 0.15:
+                sel["exclude"] = sorted(xr.sample(range(n), 1))
+            if mode < 0.45:
+                pass
             elif mode < 0.6:
                 cache_deps_of = sorted(rng.sample(range(n), rng.randint(1, min(2, n))))
                 far = [(a_, b_) for a_, m_ in edges for m2_, b_ in edges if m_ == m2_]
@@ -139,6 +147,8 @@ CORPUS = [
     # a partial setup followed by a full one: the full one runs what is left
     _chain_case(3, [[0, 2], [1, 2]], [dict(kind="setup", target=[0], exclude=None, root=None), dict(kind="setup", target=None, exclude=None, root=None), dict(kind="call", args=[], run_debug=False)], setup=[0, 1]),
     _chain_case(3, [[0, 2], [1, 2]], [dict(kind="setup", target=[1], exclude=None, root=None), dict(kind="setup", target=None, exclude=None, root=None)], setup=[0, 1], is_async=True),
+    # creating an executor with targets AND exclusions (accepted or refused) leaves the DAG alone
+    _chain_case(4, [[0, 1], [1, 2], [0, 3]], [_ex(target=[3], exclude=[1]), dict(kind="call", args=[], run_debug=False), _ex(target=[2], exclude=[1]), dict(kind="call", args=[], run_debug=False)]),
     # one path rewritten between two restarts
     _chain_case(3, [[0, 1], [1, 2]], [_ex(target=[1], cache_in=True), _ex(from_cache=0), _ex(cache_in=True), _ex(from_cache=2)]),
 ]
@@ -212,6 +222,11 @@ def run_history(case, tmpdir):
         o["executed"] = ex
         o["dup"] = sorted(x for x, c in cnt.items() if c > 1)
         obs.append(o)
+        # the executor belongs to the instance it was created on: if that instance has been deep-copied in the
+        # meantime, what this run sets up there is the original's own doing, not an effect of the copy
+        for ix_, (orig_, _done) in enumerate(originals):
+            if orig_ is inst:
+                originals[ix_] = (orig_, sorted(x for x in inst.results.keys() if x in inst.exec_nodes and inst.exec_nodes[x].setup))
 
     def do_op(oi, op):
         nonlocal cur
